@@ -1261,4 +1261,216 @@ theorem c04r_rotatePlan_bfv {kl : KeyLevel} {l : Level} (hl : l.WF) (hd : DecOK 
   rw [← Nat.mul_mod_mod, hprod, Nat.mul_mod_mod]
   exact slotExp_rotate hk2 hi
 
+
+/-! ## Non-vacuity: one concrete world for R2 / R3 — the NonVac world one level down (N = 4, q = 97, special prime P = 113, t = 17),
+    secret s = X, a genuine (noise-free) Galois key for g = 3 = `eltFromStep 1`, a ciphertext of the plaintext 1 + 2X + 3X³ -/
+
+def c04r_exSk : Array Int := #[0, 1, 0, 0]
+/-- k1 = a = 1 + 2X + 3X² + 4X³, k0 = P·σ_3(s) − a⋆s (e = 0), stored in NTT form per key-level modulus -/
+def c04r_exKey : KSKey := #[#[#[#[53, 61, 42, 54], #[35, 33, 77, 97]], #[#[30, 7, 64, 0], #[42, 96, 30, 62]]]]
+def c04r_exPolys : Array RnsPoly := #[#[#[35, 7, 87, 92]], #[#[3, 10, 20, 30]]]
+
+attribute [local instance] nv_decRnsCanon nv_decWFOp nv_decModWF
+
+theorem c04r_exDecOK : DecOK nv_level1 := by
+  refine c01p_decOK_of_new (l := nv_level1) (q := nv_base97) (aux := [nv_a0, nv_a1, nv_a2, nv_a3]) ?_ (by decide) nv_m17_wf ?_
+    nv_base97_new nv_tool1_new
+  · intro m hm
+    have : m = nv_m97 := by simpa [nv_level1] using hm
+    rw [this]; exact nv_m97_wf
+  · intro m hm
+    simp only [List.mem_cons, List.not_mem_nil, or_false] at hm
+    rcases hm with rfl | rfl | rfl | rfl
+    · exact (Modulus.mk?_wf nv_aux_mk.1 (by decide)).1
+    · exact (Modulus.mk?_wf nv_aux_mk.2.1 (by decide)).1
+    · exact (Modulus.mk?_wf nv_aux_mk.2.2.1 (by decide)).1
+    · exact (Modulus.mk?_wf nv_aux_mk.2.2.2 (by decide)).1
+
+theorem c04r_exLevelOf : c04k_LevelOf nv_kl nv_level1 := by
+  refine ⟨rfl, rfl, fun i hi => ?_⟩
+  have : i < 1 := hi
+  interval_cases i
+  rfl
+
+theorem c04r_exKLOK : c04r_KLOK nv_kl nv_level1 := by
+  obtain ⟨f1, f2, _, _, _, f6, _, f8⟩ := nv_ksinput_fields
+  exact ⟨⟨nv_kl_wf_fields.1, nv_kl_wf_fields.2⟩, f1, f2, f6, f8⟩
+
+theorem c04r_exKeyCoef :
+    c04k_keyCoef nv_kl c04r_exKey 0 0 0 = #[4, 96, 95, 13] ∧ c04k_keyCoef nv_kl c04r_exKey 0 0 1 = #[1, 2, 3, 4] ∧
+    c04k_keyCoef nv_kl c04r_exKey 1 0 0 = #[4, 112, 111, 110] ∧ c04k_keyCoef nv_kl c04r_exKey 1 0 1 = #[1, 2, 3, 4] := by
+  decide +kernel
+
+theorem c04r_exSigmaS : ∀ c, c < 4 → c04k_sigma 4 3 (fun p => c04r_exSk.getD p 0) c = if c = 3 then 1 else 0 := by
+  intro c hc
+  interval_cases c <;> simp [c04k_sigma, c04k_chi, Finset.sum_range_succ, c04r_exSk] <;> decide
+
+theorem c04r_exGalKey : c04r_GalKey nv_kl nv_level1 c04r_exSk 3 c04r_exKey (fun _ _ => 0) (fun _ => 1) := by
+  obtain ⟨k1, k2, k3, k4⟩ := c04r_exKeyCoef
+  have hm0 : (nv_kl.m 0).value = 97 := rfl
+  have hm1 : (nv_kl.m 1).value = 113 := rfl
+  have hP : nv_kl.c04t_P = 113 := rfl
+  have hn : nv_kl.n = 4 := rfl
+  have hsz : nv_level1.size = 1 := rfl
+  refine ⟨by decide, rfl, fun i hi => ?_, ⟨fun j hj i hi => ?_, fun idx hu i hi c hc => ?_⟩⟩
+  · rw [hsz] at hi ⊢
+    interval_cases i <;> (unfold c04t_KeyCanonAt; decide +kernel)
+  · rw [hsz] at hj hi
+    interval_cases j; interval_cases i
+    rw [if_pos rfl]
+  · rw [hsz] at hi hu
+    interval_cases i
+    rw [hn] at hc
+    have hs := c04r_exSigmaS c hc
+    have hidx : idx = 0 ∨ idx = 1 := by
+      rcases hu with h | h
+      · left; omega
+      · right; rw [h]; rfl
+    rcases hidx with rfl | rfl
+    · rw [hm0, hP, hn, hs]
+      unfold c04k_keyI
+      rw [k1, k2]
+      interval_cases c <;> simp [negMulR, Finset.sum_range_succ, c04r_exSk] <;> decide
+    · rw [hm1, hP, hn, hs]
+      unfold c04k_keyI
+      rw [k3, k4]
+      interval_cases c <;> simp [negMulR, Finset.sum_range_succ, c04r_exSk] <;> decide
+
+theorem c04r_exCanon : ∀ k, k < 2 → RnsCanon nv_level1 (c04r_exPolys.getD k #[]) := by decide +kernel
+
+/-- the input noise: |t·x − Q·round(t·x/Q)| ≤ 36 for every coefficient of the exact phase (5, 10, 0, 15) -/
+theorem c04r_exNoise : ∀ c, c < nv_level1.n → (c04r_bfvNoise nv_level1.t.value (Spec.prodL (c01p_qvals nv_level1))
+    ((Spec.phase (c01p_qvals nv_level1) nv_level1.n c04r_exSk c04r_exPolys.toList).getD c 0)).natAbs ≤ 36 := by
+  unfold c04r_bfvNoise
+  decide +kernel
+
+theorem c04r_exV : (nv_level1.size * (97 * (nv_kl.n * 0)) + nv_kl.c04t_P / 2 *
+    (1 + ∑ p ∈ range nv_kl.n, (c04r_exSk.getD p 0).natAbs)) / nv_kl.c04t_P ≤ 0 := by
+  have hP : nv_kl.c04t_P = 113 := rfl
+  have hn : nv_kl.n = 4 := rfl
+  rw [hP, hn]
+  simp [Finset.sum_range_succ, c04r_exSk]
+
+theorem c04r_exMargin (len : Nat) : 2 * nv_level1.tool.gamma.value * (36 + len * (nv_level1.t.value * 0))
+    + 2 * nv_level1.size * Spec.prodL (c01p_qvals nv_level1) ≤ Spec.prodL (c01p_qvals nv_level1) * nv_level1.tool.gamma.value := by
+  rw [Nat.mul_zero, Nat.mul_zero, Nat.add_zero]
+  decide +kernel
+
+/-- NON-VACUITY of R3 (single step): all hypotheses of `c04r_rotate_bfv` hold on the concrete world, for `rotate_rows(1)` -/
+theorem c04r_rotate_bfv_nonvacuous :
+    ∃ ct' m m', applyGalois nv_kl nv_level1 .bfv ⟨c04r_exPolys, false, 1⟩ 3 c04r_exKey = .ok ct' ∧
+      bfvDecrypt nv_level1 c04r_exSk ⟨c04r_exPolys, false, 1⟩ = .ok m ∧ bfvDecrypt nv_level1 c04r_exSk ct' = .ok m' ∧
+      ∀ i, i < nv_level1.n → (batchDecode nv_t17 m').getD i 0 = (batchDecode nv_t17 m).getD (c04r_slotIdx nv_level1.k 1 i) 0 := by
+  have hin := c04r_ksinput c04r_exLevelOf c04r_exKLOK c04r_exGalKey (polys := c04r_exPolys) false 1 c04r_exCanon
+  refine c04r_rotate_bfv nv_level1_wf c04r_exDecOK c04r_exLevelOf nv_t17_wf rfl rfl (by decide) (step := 1) (by decide) rfl
+    c04r_exCanon hin rfl rfl c04r_exGalKey.hke (fun _ _ => rfl) (E := 36) (V := 0) c04r_exNoise ?_ ?_
+  · intro c hc
+    exact le_trans (c04r_step_noise c04r_exLevelOf c04r_exKLOK (by decide) c04r_exGalKey 1 c04r_exCanon (A := 97) (Be := 0)
+      (fun i hi => by have : i < 1 := hi; interval_cases i; exact le_refl _) (fun _ _ _ _ => le_refl _) c hc) c04r_exV
+  · have := c04r_exMargin 0
+    simpa using this
+
+/-- NON-VACUITY of R3 (composed): `rotatePlan` with the single key element 3 for step 1, executed as a chain -/
+theorem c04r_rotatePlan_bfv_nonvacuous :
+    rotatePlan nv_level1.k [3] 1 1 = .ok [3] ∧
+    ∃ ct' m m', c04r_applyChain nv_kl nv_level1 .bfv (fun _ => c04r_exKey) [3] ⟨c04r_exPolys, false, 1⟩ = .ok ct' ∧
+      bfvDecrypt nv_level1 c04r_exSk ⟨c04r_exPolys, false, 1⟩ = .ok m ∧ bfvDecrypt nv_level1 c04r_exSk ct' = .ok m' ∧
+      ∀ i, i < nv_level1.n → (batchDecode nv_t17 m').getD i 0 =
+        (batchDecode nv_t17 m).getD (c04r_rotIdx nv_level1.k (c04r_stepExp nv_level1.k 1) i) 0 := by
+  have hplan : rotatePlan nv_level1.k [3] 1 1 = .ok [3] := by decide
+  refine ⟨hplan, ?_⟩
+  exact (c04r_rotatePlan_bfv nv_level1_wf c04r_exDecOK c04r_exLevelOf c04r_exKLOK nv_t17_wf rfl rfl (by decide) rfl
+    (fun _ => c04r_exKey) (fun _ _ _ => 0) (fun _ _ => 1) (A := 97) (Be := 0) (V := 0)
+    (fun i hi => by have : i < 1 := hi; interval_cases i; exact le_refl _) c04r_exV
+    (keys := [3]) (fun g hg => by
+      rw [List.mem_singleton] at hg; subst hg
+      exact ⟨c04r_exGalKey, fun _ _ _ _ => le_refl _⟩)
+    hplan rfl c04r_exCanon c04r_exNoise (c04r_exMargin _)).2.2
+
+
+/-! ### refusals along the composed rotation -/
+
+theorem c04r_rotatePlan_fuel0 (k : Nat) (keys : List Nat) (steps : Int) : rotatePlan k keys 0 steps = .error .other := rfl
+
+/-- a non-zero step with |step| ≥ N/2 is refused (the refusal of `eltFromStep` propagates) -/
+theorem c04r_rotatePlan_refuses_range (k : Nat) (keys : List Nat) (fuel : Nat) {steps : Int} (h0 : steps ≠ 0)
+    (hs : 2^k / 2 ≤ steps.natAbs) : rotatePlan k keys (fuel + 1) steps = .error .refused := by
+  rw [c04r_rotatePlan_succ, if_neg h0, eltFromStep_refuses' hs (Or.inl h0)]
+  rfl
+
+/-- step 0 is the identity plan (no key needed) -/
+theorem c04r_rotatePlan_zero (k : Nat) (keys : List Nat) (fuel : Nat) : rotatePlan k keys (fuel + 1) 0 = .ok [] := by
+  rw [c04r_rotatePlan_succ, if_pos rfl]; rfl
+
+/-- a failing step makes the chain fail with the same error -/
+theorem c04r_applyChain_error {kl : KeyLevel} {l : Level} {scheme : Scheme} {keyOf : Nat → KSKey} {g : Nat} {gs : List Nat}
+    {ct : Ct} {err : Err} (h : applyGalois kl l scheme ct g (keyOf g) = .error err) :
+    c04r_applyChain kl l scheme keyOf (g :: gs) ct = .error err := by
+  show (applyGalois kl l scheme ct g (keyOf g) >>= fun ct' => c04r_applyChain kl l scheme keyOf gs ct') = _
+  rw [h]; rfl
+
+/-! ## Property theorems -/
+
+/-- R1, the INDEX / SIGN RULE of σ_g = `c04k_sigma (2^k) g` (g odd): coefficient i goes to index i·g mod N, negated iff ⌊i·g/N⌋ is odd -/
+theorem sigma_index_sign_rule : type_of% @c04r_sigma_rule := @c04r_sigma_rule
+/-- σ_h ∘ σ_g = σ_{g·h}; σ_g depends only on g mod 2N; ‖σ_g(e)‖∞ ≤ ‖e‖∞ -/
+theorem sigma_comp : type_of% @c04r_sigma_comp := @c04r_sigma_comp
+theorem sigma_mod : type_of% @c04r_sigma_mod := @c04r_sigma_mod
+theorem sigma_natAbs_le : type_of% @c04r_sigma_natAbs_le := @c04r_sigma_natAbs_le
+
+/-- R1 (BFV): for integer phases x, y (arrays of N = 2^k coefficients), any splitting t·x = Q·m + e with 2|e| < Q, and
+    y ≡ σ_g(x) + ν (mod Q): if 2|σ_g(e) + t·ν| < Q coefficient-wise then `Spec.bfvDecode t Q y` = σ_g(`Spec.bfvDecode t Q x`) mod t,
+    coefficient by coefficient -/
+theorem bfvDecode_sigma : type_of% @c04r_bfvDecode_sigma := @c04r_bfvDecode_sigma
+/-- … and the measured noise t·y − Q·round(t·y/Q) of the result is exactly σ_g(e) + t·ν -/
+theorem bfv_noise_sigma : type_of% @c04r_bfv_noise_sigma := @c04r_bfv_noise_sigma
+/-- R1 (BGV): y ≡ σ_g(x) + ν (mod Q), t ∣ ν, y centred, 2|σ_g(x) + ν| < Q ⇒ `Spec.bgvDecode t cf y` = σ_g(`Spec.bgvDecode t cf x`) mod t -/
+theorem bgvDecode_sigma : type_of% @c04r_bgvDecode_sigma := @c04r_bgvDecode_sigma
+
+/-- R2: for well-formed batching tables `t` (plain modulus prime, ≡ 1 mod 2N), a full-length canonical plaintext p and odd g, the model's
+    `galoisApply` succeeds with a canonical result r and slot i of `batchDecode r` is slot i' of `batchDecode p` whenever
+    slotExp(i)·g ≡ slotExp(i') (mod 2N) -/
+theorem batchDecode_galois : type_of% @c04r_decode_galois := @c04r_decode_galois
+/-- R2, rows: g ≡ 3^s (mod 2N), N ≥ 4 ⇒ both rows of the slot matrix rotate LEFT by s (`c04r_rotIdx`) -/
+theorem batchDecode_rotate_rows : type_of% @c04r_decode_rotate := @c04r_decode_rotate
+/-- R2, columns: g ≡ 2N − 1 (mod 2N), N ≥ 2 ⇒ the two rows are exchanged (`c04r_swapIdx`) -/
+theorem batchDecode_swap_rows : type_of% @c04r_decode_swap := @c04r_decode_swap
+/-- R2 for the element returned by the model's `eltFromStep` (signed steps; step 0 = columns) -/
+theorem batchDecode_eltFromStep : type_of% @c04r_decode_eltFromStep := @c04r_decode_eltFromStep
+theorem eltFromStep_slot : type_of% @c04r_elt_slot := @c04r_elt_slot
+
+/-- R3: exact phase (`Spec.phase`) of the `applyGalois` result ≡ σ_g(exact input phase) + ν modulo Q (BFV coefficient form / BGV NTT form) -/
+theorem applyGalois_spec_phase_bfv : type_of% @c04r_applyGalois_spec_bfv := @c04r_applyGalois_spec_bfv
+theorem applyGalois_spec_phase_bgv : type_of% @c04r_applyGalois_spec_bgv := @c04r_applyGalois_spec_bgv
+/-- R3, coefficient level: the model's decryption of the `applyGalois` result is σ_g(m) mod t, m the model's decryption of the input;
+    hypotheses: `Level.WF`, `DecOK`, `c04k_LevelOf`, `c04t_KSInput`, key equation `c04k_KeyEq` with s' = σ_g(s), input noise ≤ E, key-switch noise
+    ≤ V, and the BEHZ decode margin for E + t·V (BFV) resp. no wrap-around 2(X + V) < Q and t ∣ e_i (BGV).  Also returns the
+    noise bound E + t·V of the result (noises add) -/
+theorem applyGalois_decrypt_bfv : type_of% @c04r_applyGalois_decrypt_bfv := @c04r_applyGalois_decrypt_bfv
+theorem applyGalois_decrypt_bgv : type_of% @c04r_applyGalois_decrypt_bgv := @c04r_applyGalois_decrypt_bgv
+/-- R3, slot level: with g = `eltFromStep step`, the result decrypts to the plaintext whose slots are the input's rotated by `step`
+    (rows) / swapped (step 0) -/
+theorem rotate_rows_bfv : type_of% @c04r_rotate_bfv := @c04r_rotate_bfv
+theorem rotate_rows_bgv : type_of% @c04r_rotate_bgv := @c04r_rotate_bgv
+/-- the key-switching noise of one step from the explicit bound of `switchKey_noise_bound` -/
+theorem rotate_step_noise : type_of% @c04r_step_noise := @c04r_step_noise
+
+/-- R3 composed: `rotatePlan` — every element of the plan is in `keys`, odd, < 2N, and the product of the plan is 3^(steps mod N/2) mod 2N -/
+theorem rotatePlan_ok : type_of% @c04r_rotatePlan_ok := @c04r_rotatePlan_ok
+/-- a chain of `applyGalois` steps decrypts to σ_{Π gs}(m) mod t under the accumulated margin E + |gs|·t·V -/
+theorem rotate_chain_bfv : type_of% @c04r_chain_bfv := @c04r_chain_bfv
+/-- executing `rotatePlan`'s plan rotates the slot rows by `steps` -/
+theorem rotatePlan_rotate_bfv : type_of% @c04r_rotatePlan_bfv := @c04r_rotatePlan_bfv
+theorem rotatePlan_fuel0 : type_of% @c04r_rotatePlan_fuel0 := @c04r_rotatePlan_fuel0
+theorem rotatePlan_refuses_range : type_of% @c04r_rotatePlan_refuses_range := @c04r_rotatePlan_refuses_range
+theorem rotatePlan_zero : type_of% @c04r_rotatePlan_zero := @c04r_rotatePlan_zero
+theorem applyChain_error : type_of% @c04r_applyChain_error := @c04r_applyChain_error
+
+/-- R4 (CKKS): `rotate_vector(step)` = σ_{3^s}, conjugation = σ_{2N−1}, on the exact phase modulo every level modulus -/
+theorem ckks_rotate_phase : type_of% @c04r_ckks_rotate := @c04r_ckks_rotate
+
+/-- NON-VACUITY: all hypotheses hold on the concrete world N = 4, q = 97, P = 113, t = 17 -/
+theorem rotate_rows_bfv_nonvacuous : type_of% @c04r_rotate_bfv_nonvacuous := @c04r_rotate_bfv_nonvacuous
+theorem rotatePlan_rotate_bfv_nonvacuous : type_of% @c04r_rotatePlan_bfv_nonvacuous := @c04r_rotatePlan_bfv_nonvacuous
+
 end HC
